@@ -210,12 +210,14 @@ def impl_plot(case):
         with C.glue("recording PlotHaplotypeBlock (entry)"):
             A = C.bind_args(orig, a, k)
             block, hapnum, colors, ax = C.need(A, "block", "hapnum", "colors", "ax")
-            n0 = len(ax.collections)
+            n0, p0 = len(ax.collections), len(ax.patches)
         r = orig(*a, **k)
         with C.glue("recording PlotHaplotypeBlock (exit)"):
-            for col in ax.collections[n0:]:
-                xs = [v[0] for v in col.get_paths()[0].vertices[:4]]
-                fc = tuple(round(float(x), 6) for x in col.get_facecolor()[0])
+            # the block may land on the axes as a one-path collection or as a patch
+            shapes = [(col.get_paths()[0], col.get_facecolor()[0]) for col in ax.collections[n0:]] + [(pt.get_path(), pt.get_facecolor()) for pt in ax.patches[p0:]]
+            for path, face in shapes:
+                xs = [v[0] for v in path.vertices[:4]]
+                fc = tuple(round(float(x), 6) for x in face)
                 pops = [p for p, cname in colors.items() if tuple(round(float(x), 6) for x in mc.to_rgba(cname)) == fc]
                 added.append([pops[0] if len(pops) == 1 else f"colour:{fc}", int(block["chrom"]), round(min(xs) * 10000), round(max(xs) * 10000), hapnum])
         return r
